@@ -2,9 +2,10 @@ from props.index import FAMILY  # noqa: F401
 
 CHECK = dict(
     property='C01', level='exploration',
-    families=[('index', 1.0)],
+    families=[('index', 0.9), ('stale', 0.1)],
     budget=dict(quick=45, thorough=900), max_runs=dict(quick=200_000, thorough=5_000_000),
-    rule=('each evaluation = one seeded simulated run of the real server (Controller.run) syncing a '
+    rule=('in 10 % of the runs the reported values are judged at the protocol level instead: real client sessions on the simulated network ask get_balance / listunspent for every script at quiescence, with a non-empty mempool and after reorgs (family stale), and the confirmed balance / confirmed unspent list must be what the chain implies; '
+          'otherwise each evaluation = one seeded simulated run of the real server (Controller.run) syncing a '
           'generated valid chain (collision coinbases, OP_RETURN forms around the activation height, '
           'same-block spend chains, zero-value / duplicate-script outputs) under per-run knobs '
           '(prefetch limit, reorg limit, chunk size, CACHE_MB, latencies, daemon faults, thread '
